@@ -13,6 +13,13 @@ CLAIMED = {
         note='Trusted: the reference model lib/z80ref.py and its listed emulator conventions; the proxy engine lib/symx.py; z3. Bits 5/3 of F are not compared. '
              'The C implementations are connected through C06, not here.',
         design='4 (C05), 2.1, 3.1', technique=TECH + '; oracle = reference Z80 model'),
+    'C08': dict(
+        text='Inductive step decided by z3: from any machine state satisfying the invariant (register ranges, byte-valued memory, paging relation) one execution of every real '
+             'instruction closure, accept_interrupt, each of the five paging write_port implementations, and each Memory get/set/bank/out7ffd/copy operation is shown to stay in the '
+             'invariant, leave every ROM cell unchanged, not decrease T, write exactly one cell of the mapped bank, and page exactly as the last accepted 0x7FFD write prescribes '
+             '(port, value, previous 0x7FFD all symbolic). Histories of any length follow by induction, which subsumes the property\'s sequences of up to 3 port writes.',
+        note='Python implementations only (C twins are reached through C06). T < 2^32 is a bound of the claim. Trusted: lib/symx.py, z3, the reading of "accepted write" as port & 0x8002 == 0 with bit 5 clear.',
+        design='4 (C08)', technique=TECH + '; inductive invariant step'),
 }
 NOT_APPLICABLE = {
     'C16': 'HTML link/anchor consistency is a property of generated document structure (which files and id= strings exist); there is no bounded arithmetic/data path to make symbolic - a solver encoding would be a copy of the writer (DESIGN.md section 5).',
